@@ -106,7 +106,9 @@ func c20Case(r *evid.Run, tier string, idx int, g *rng.R) {
 	defer os.RemoveAll(root)
 	// --- the tree ---
 	var files []*c20File
-	dirs := []string{"", "sub", "sub/deep", "other", "emptydir"}
+	// directory and file names are data too: '%', blanks, ': ', non-ASCII
+	other := rng.Pick(g, []string{"other", "100% done", "o: p", "dïr %s", "%d"})
+	dirs := []string{"", "sub", "sub/deep", other, "emptydir"}
 	for _, d := range dirs {
 		os.MkdirAll(filepath.Join(root, "in", d), 0o755)
 	}
@@ -116,7 +118,11 @@ func c20Case(r *evid.Run, tier string, idx int, g *rng.R) {
 		kind := rng.Pick(g, []string{"xml", "xml", "xml", "html", "json"})
 		ext := rng.Pick(g, exts[kind])
 		dir := rng.Pick(g, dirs[:4])
-		rel := filepath.Join(dir, fmt.Sprintf("f%02d%s", i, ext))
+		stem := fmt.Sprintf("f%02d", i)
+		if g.P(30) {
+			stem += rng.Pick(g, []string{"%", " 50%v", ": x", " y", "é", "%!s", "%%", "%5d"})
+		}
+		rel := filepath.Join(dir, stem+ext)
 		f := c20GenFile(g, rel, kind)
 		if kind == "xml" && g.P(20) {
 			// a file that references the entity given with -e, in text and in an attribute value
@@ -144,7 +150,7 @@ func c20Case(r *evid.Run, tier string, idx int, g *rng.R) {
 		files = append(files, f)
 	}
 	if g.P(30) {
-		os.MkdirAll(filepath.Join(root, "in", "other", "looks-like.xml"), 0o755) // a directory named like a file
+		os.MkdirAll(filepath.Join(root, "in", other, "looks-like.xml"), 0o755) // a directory named like a file
 	}
 	for _, f := range files {
 		p := filepath.Join(root, "in", f.rel)
@@ -202,7 +208,7 @@ func c20Case(r *evid.Run, tier string, idx int, g *rng.R) {
 		}
 		targets = append(targets, filepath.Join(inRoot, "sub"))
 	case 3:
-		targets = []string{filepath.Join(inRoot, "sub"), filepath.Join(inRoot, "other"), filepath.Join(inRoot, "missing.xml")}
+		targets = []string{filepath.Join(inRoot, "sub"), filepath.Join(inRoot, other), filepath.Join(inRoot, "missing.xml")}
 	default:
 		for _, f := range files {
 			if f.bad == "" {
